@@ -565,7 +565,7 @@ impl Monitor for C07 {
             }
             1 => {
                 let mut cfg = GenCfg::default();
-                cfg.max_nodes = *rng.pick(&[6, 15, 30, 60]);
+                cfg.max_nodes = if crate::engine::legs_mode() { 6 } else { *rng.pick(&[6, 15, 30, 60]) };
                 cfg.max_depth = *rng.pick(&[3, 6, 10]);
                 cfg.ns_mode = if rng.bool() { NsMode::Consistent } else { NsMode::None };
                 cfg.text = TextProfile::Plain;
@@ -594,6 +594,7 @@ impl Monitor for C07 {
                 run_tree(ctx, &a, route, style, via_parse);
                 ctx.sample(|| J::obj().set("tree", a.to_json()).set("via_parse", J::Bool(via_parse)));
             }
+            _ if crate::engine::legs_mode() => {}
             _ => {
                 // deep chains and wide fans
                 let mut e = ANode::elem(QName::plain("leaf")).with_attr(QName::plain("k"), "v");
